@@ -62,7 +62,7 @@ CHECKS = {
  'C19': ('independent splitter / joiner and wire decode vs the TXT conversions',
          'Exploration: tens of thousands of Unicode strings with multi-byte characters across chunk boundaries, attribute maps with absent/empty values, look-alike code points; every length 0..300 for the constructors.',
          'Maps compared on non-empty keys.'),
- 'C20': ('interval-tolerant time model around bracketed library calls (real sleeps; Miri virtual clock in thorough)',
+ 'C20': ('interval-tolerant time model around bracketed library calls (real sleeps; Miri virtual clock in thorough); a live family reads get_known_services() of real sync/tokio ServiceDiscovery instances before and after the lifetimes of received records',
          'Exploration: 480 (quick) / 6400 (thorough) histories of 6..14 steps with TTLs {0,1,2,1000}, cache-flush, re-adds, removes, clears and sleeps, each step followed by queries under the four filters; ~10^5 per-record decisions.',
          'Instant is monotonic; tolerance band = bracketing interval.'),
 }
